@@ -42,6 +42,22 @@ def n_fds():
         return -1
 
 
+def input_fds(path):
+    """open descriptors of this process that name `path`"""
+    n = 0
+    try:
+        real = os.path.realpath(path)
+        for fd in os.listdir("/proc/self/fd"):
+            try:
+                if os.path.realpath(os.readlink("/proc/self/fd/" + fd)) == real:
+                    n += 1
+            except OSError:
+                pass
+    except OSError:
+        return 0
+    return n
+
+
 def family(e):
     if isinstance(e, AssertionError):
         return "assert"
@@ -297,6 +313,7 @@ def attempt_body(fmt, path, policy0, good, fresh):
     res = {}
     gc.freeze()  # child of a fork: everything inherited is permanent, later collections only scan what the call made
     fd0 = n_fds()
+    kept = []
     with warnings.catch_warnings(record=True) as wl:
         warnings.simplefilter("always")
         try:
@@ -314,6 +331,11 @@ def attempt_body(fmt, path, policy0, good, fresh):
         except Exception as e:  # noqa
             res["outcome"] = "raise"
             res["family"] = family(e)
+            kept.append(e)   # a caller may keep what was raised: log it, re-raise it later, show the traceback
+        # while the raised exception (and with it the frames of the reader) is still alive: the reader
+        # must have closed its input by the time it raises
+        res["input_open"] = input_fds(path)
+        kept.clear()
         nl = None
         gc.collect()
     # open streams the call left behind once nothing refers to its objects any more
@@ -389,6 +411,10 @@ def judge_attempt(sr, inp, res):
                             "unsupported construct %s was accepted" % c["with"])
         if kind == "none" and not res.get("has_top", True) and fmt != "eblif":
             pass
+    if res.get("input_open", 0) > 0:
+        sr.spec_failure("%s.parse.input_left_open_on_%s" % (fmt, "rejection" if out == "raise" else "return"), brief,
+                        "%d descriptor(s) on the input file still open when sdn.parse %s (the raised exception kept alive by the caller)"
+                        % (res["input_open"], "raised" if out == "raise" else "returned"))
     if res.get("fd_delta", 0) > 0:
         sr.spec_failure("%s.parse.leaves_file_open" % fmt, brief,
                         "%d more open file descriptor(s) after the call than before it (after gc.collect())" % res["fd_delta"])
@@ -753,7 +779,7 @@ def run(ctx):
                 return 0
             if c.get("must"):
                 # the cheap deterministic detectors first: lexical states, long identifiers, text edges
-                if c.get("kind") in ("lexstate", "longid", "retarget", "rescope"):
+                if c.get("kind") in ("lexstate", "longid", "retarget", "rescope", "dupname", "dupid"):
                     return 1
                 if c.get("kind") == "truncate" and c.get("one_policy"):
                     return 1.1   # a failure at every point of the fixed texts: the general residue detector
